@@ -23,7 +23,7 @@ PY = os.path.join(ROOT, ".venv", "bin", "python")
 
 def env():
     e = dict(os.environ)
-    e["PYTHONPATH"] = "/repo" + os.pathsep + ROOT
+    e["PYTHONPATH"] = (os.environ.get("VF_REPO") or "/repo") + os.pathsep + ROOT
     e["PYTHONHASHSEED"] = "0"
     e["PYTHONDONTWRITEBYTECODE"] = "1"
     e.setdefault("AIOCOAP_VERIF", "1")
@@ -95,7 +95,7 @@ def main(argv=None):
         print("NOT-REPRODUCED property=%s obligation=%s" % (prop, rp["obligation"]))
         return 0
 
-    sys.path.insert(0, "/repo")
+    sys.path.insert(0, os.environ.get("VF_REPO") or "/repo")
     t0 = time.time()
     mod = importlib.import_module("vf.props.%s" % prop.lower())
     obls = mod.obligations(a.tier)
